@@ -117,22 +117,33 @@ def hashOrPre (S : Bytes → Bytes) (direct : R Bytes) (pre : Option Bytes) : R 
   | none => do let b ← direct; pure (hash256 S b)
   | some sha => pure (S sha)
 
+/-- `hash_prev_outs` of `segwit_v0` -/
+def segHashPrevouts (S : Bytes → Bytes) (tx : Tx) (w : Nat) (pre : Option Precomputed) : R Bytes :=
+  if !anyoneCanPay w then hashOrPre S (serializedPrevouts tx) (pre.map (·.shaPrevouts)) else pure zero32
+
+/-- `hash_seqs` of `segwit_v0` -/
+def segHashSequence (S : Bytes → Bytes) (tx : Tx) (w : Nat) (pre : Option Precomputed) : R Bytes :=
+  if !anyoneCanPay w ∧ baseType w ≠ Gen.SigHash.SINGLE ∧ baseType w ≠ Gen.SigHash.NONE then
+    hashOrPre S (serializedSequences tx) (pre.map (·.shaSequences)) else pure zero32
+
+/-- `hash_outputs` of `segwit_v0` -/
+def segHashOutputs (S : Bytes → Bytes) (tx : Tx) (i w : Nat) (pre : Option Precomputed) : R Bytes :=
+  if baseType w ≠ Gen.SigHash.SINGLE ∧ baseType w ≠ Gen.SigHash.NONE then
+    hashOrPre S (serializedOutputs tx) (pre.map (·.shaOutputs))
+  else if baseType w = Gen.SigHash.SINGLE ∧ i < tx.vout.length then do
+    let b ← serOutputC (tx.vout.getD i blankOut)
+    pure (hash256 S b)
+  else pure zero32
+
 /-- `sig_hash.segwit_v0` -/
 def segwitV0 (S : Bytes → Bytes) (sc : Bytes) (tx : Tx) (i ht amount : Int)
     (pre : Option Precomputed) : R Bytes := do
   assertCAmount amount
   let i ← assertVin tx i
   let w := word ht
-  let hp ← if !anyoneCanPay w then
-      hashOrPre S (serializedPrevouts tx) (pre.map (·.shaPrevouts)) else pure zero32
-  let hs ← if !anyoneCanPay w ∧ baseType w ≠ Gen.SigHash.SINGLE ∧ baseType w ≠ Gen.SigHash.NONE then
-      hashOrPre S (serializedSequences tx) (pre.map (·.shaSequences)) else pure zero32
-  let ho ← if baseType w ≠ Gen.SigHash.SINGLE ∧ baseType w ≠ Gen.SigHash.NONE then
-      hashOrPre S (serializedOutputs tx) (pre.map (·.shaOutputs))
-    else if baseType w = Gen.SigHash.SINGLE ∧ i < tx.vout.length then do
-      let b ← serOutputC (tx.vout.getD i blankOut)
-      pure (hash256 S b)
-    else pure zero32
+  let hp ← segHashPrevouts S tx w pre
+  let hs ← segHashSequence S tx w pre
+  let ho ← segHashOutputs S tx i w pre
   let inp := tx.vin.getD i dfltIn
   let p1 ← ser4 tx.version
   let p4 ← serOutPointC inp.prev
